@@ -146,8 +146,43 @@ def oracle(T, b):
             f.append("invariants differ from the elementary symmetric functions of the eigenvalues")
         f += oracle_presentations(T, b)
         f += oracle_magnitudes(T, b)
+        f += oracle_purity(T, b)
     except Exception as e:  # noqa: BLE001
         f.append(f"a public function raised {type(e).__name__}: {e}")
+    return f
+
+
+def oracle_purity(T, b):
+    """The maps of C11 are maps: they return their value and leave their argument alone.  Read on the SAME float64 objects
+    (no defensive copies): the argument of every public function is unchanged by the call, and for the projectors the
+    complement x - P(x) computed from the caller's x after the call obeys Pythagoras |Px|^2 + |x - Px|^2 = |x|^2 (an orthogonal
+    projection; false when P zeroes x in place: seeded change C11f)."""
+    import argguard
+    f = []
+    M, x, R1, A = (np.array(b[k], dtype=float) for k in ("M", "x", "R1", "A"))
+    C = np.asarray(T.voigt_to_elastic_tensor(M.copy()), dtype=float)
+    calls = [("voigt_to_elastic_tensor", T.voigt_to_elastic_tensor, [M.copy()]), ("elastic_tensor_to_voigt", T.elastic_tensor_to_voigt, [C.copy()]),
+             ("voigt_matrix_to_vector", T.voigt_matrix_to_vector, [M.copy()]), ("voigt_vector_to_matrix", T.voigt_vector_to_matrix, [x.copy()]),
+             ("voigt_decompose", T.voigt_decompose, [M.copy()]), ("rotate", T.rotate, [C.copy(), R1.copy()]),
+             ("mono_project", T.mono_project, [x.copy()]), ("ortho_project", T.ortho_project, [x.copy()]),
+             ("tetr_project", T.tetr_project, [x.copy()]), ("hex_project", T.hex_project, [x.copy()]),
+             ("polar_decompose", T.polar_decompose, [A.copy()]), ("invariants_second_order", T.invariants_second_order, [A.copy()]),
+             ("upper_tri_to_symmetric", T.upper_tri_to_symmetric, [np.triu(M)])]
+    for name, fn, args in calls:
+        try:
+            _, faults = argguard.guarded(fn, args)
+        except Exception:  # noqa: BLE001  (raising is judged by the other clauses)
+            continue
+        for ft in faults:
+            f.append(f"{name} modified its argument in place: {ft}")
+    n2 = float(x @ x)
+    for p in (T.mono_project, T.ortho_project, T.tetr_project, T.hex_project):
+        xx = x.copy()
+        px = np.asarray(p(xx), dtype=float)
+        comp = xx - px
+        if abs(float(px @ px) + float(comp @ comp) - n2) > 1e-9 * max(1.0, n2):
+            f.append(f"{p.__name__}: |Px|^2 + |x - Px|^2 != |x|^2 with x - Px formed from the caller's x after the call "
+                     f"({float(px @ px):.6g} + {float(comp @ comp):.6g} vs {n2:.6g})")
     return f
 
 
